@@ -164,9 +164,24 @@ def execute(src, ctxs, seam):
     return tuple(out)
 
 
+_EMPTY_TPL = []
+
+
+def bound_context(c):
+    """a Context bound to an (empty) template of the default engine, as every Context is during a render: a failing
+    lookup then evaluates to the engine's string_if_invalid (stock semantics) instead of crashing the reference"""
+    from django.template import Context, Template
+
+    if not _EMPTY_TPL:
+        _EMPTY_TPL.append(Template(""))
+    ctx = Context(c)
+    ctx.template = _EMPTY_TPL[0]
+    return ctx
+
+
 def expected(args, ctxs):
     """-> per context: ('ok', args, kwargs, flags, alts) | ('tse',) | ('skip', why)"""
-    from django.template import Context
+    Context = bound_context
 
     ref = _setup()["ref"]
     two_readings = ref.has_escaped_tpl(args)
@@ -319,7 +334,7 @@ def stream_A(tier, marker):
     from django.template import Context
 
     ref = _setup()["ref"]
-    ctxs = [Context(c) for c in g.contexts(marker)]
+    ctxs = [bound_context(c) for c in g.contexts(marker)]
     fr = g.frames()
     for lf in g.leaves_full(marker):
         # what the leaf is in each context decides which operand frames apply
